@@ -73,6 +73,7 @@ func vfStampsMS(b []byte) (out []int64, rest string) {
 
 func TestVerifC01(t *testing.T) {
 	r := rep.New("C01")
+	reask := &vfReask{}
 	r.Rule("case = (asset, representation, addressing mode, startNumber, start time, live index n); class = (asset, rep, mode, snr, start, n mod N, " +
 		"wrap bucket {0,1,2,3-9,10-999,1e3-1e5,>1e5}, tfdt needs 64 bit); counted only when the served segment was parsed and compared with the VoD segment")
 	r.Assume("VoD truth table from an independent mp4ff/encoding-xml walk of the asset files; trex defaults taken from the VoD init")
@@ -172,6 +173,7 @@ func TestVerifC01(t *testing.T) {
 					}
 					full := vfURL(cfg.url(), w.Ref.Path, u, nowMS)
 					resp := vfGet(w.Srv, full)
+					reask.add(w.Srv, full, resp)
 					r.Eval(1)
 					det := func(extra string) map[string]any {
 						return map[string]any{"url": full, "n": n, "N": N, "vod_file": vod.File, "what": extra}
@@ -304,6 +306,7 @@ func TestVerifC01(t *testing.T) {
 			}
 		}
 	}
+	vfReaskAtOnce(r, reask, "segments")
 	if r.NViolations() > 0 {
 		t.Fail()
 	}
